@@ -6,6 +6,7 @@
    by the harness) are confirmed by the Gallina checkers of Typed/Literals.v. *)
 From Coq Require Import List Bool NArith ZArith.
 From PV Require Import Base.Str Base.Value Typed.GValue Typed.Cast Typed.Literals Typed.Collect Typed.CastOk Typed.Witness.
+From PV Require Import Typed.CastShape.
 Import ListNotations.
 
 (* For every JSON value used as a property of an unmodelled resource: what the specified casting presents is an allowed
@@ -73,6 +74,289 @@ Theorem C18_empty_object :
 Proof. exact empty_object_stays_empty. Qed.
 Print Assumptions C18_empty_object.
 
+
+(* ================= structural theorems (Typed/CastShape.v): every value, every depth and width ================= *)
+
+(* ---- 1. SHAPE ---- *)
+(* nth-wise: the i-th member of the cast array is the cast of the i-th member, or -- in a typed list -- what the list's
+   alternative reads that member as *)
+Theorem C18_shape_list_nth :
+  forall (c : cfg) (l : list gvalue) (i : nat) (x : gvalue),
+    nth_error l i = Some x ->
+    exists ts t, cast c (GList l) = TList ts /\ length ts = length l /\ nth_error ts i = Some t /\
+      (t = cast c x \/
+       exists b, b <> BStr /\ choose c (GList l) = CList b /\ guard_item c b x = true /\ member c b x = Some t).
+Proof. exact list_nth. Qed.
+Print Assumptions C18_shape_list_nth.
+(* an object that is not recognised: the same keys in the same order, the i-th value the cast of the i-th value *)
+Theorem C18_shape_object_nth :
+  forall (c : cfg) (d : list (str * gvalue)) (r : option recog) (i : nat) (k : str) (x : gvalue),
+    choose c (GDict d r) = CNone -> nth_error d i = Some (k, x) ->
+    exists d', cast c (GDict d r) = TGeneric d' /\ map fst d' = map fst d /\ nth_error d' i = Some (k, cast c x).
+Proof. exact object_nth. Qed.
+Print Assumptions C18_shape_object_nth.
+(* nested paths: below containers the cast goes through member by member, the node at a path of the cast is the cast of the
+   node at that path -- it depends on that node only, not on siblings, position or depth *)
+Theorem C18_cast_at :
+  forall (c : cfg) (p : path) (g x : gvalue),
+    along (transparent c) g p = true -> gat g p = Some x -> tat (cast c g) p = Some (cast c x).
+Proof. exact cast_at. Qed.
+Print Assumptions C18_cast_at.
+(* ... through typed lists as well when the node at the end is local (see 2.) *)
+Theorem C18_cast_at_local :
+  forall (c : cfg) (p : path) (g x : gvalue),
+    along (passable c) g p = true -> gat g p = Some x -> local_value c x -> tat (cast c g) p = Some (cast c x).
+Proof. exact cast_at_local. Qed.
+Print Assumptions C18_cast_at_local.
+(* where nothing is recognised the whole skeleton -- array lengths, object keys in order, nesting -- is preserved, hence the
+   same nodes at the same paths in the same order, in particular the same paths to scalar leaves *)
+Theorem C18_skeleton :
+  forall (c : cfg) (g : gvalue), shape_plain c g = true -> tskel (cast c g) = gskel g.
+Proof. exact skel_preserved. Qed.
+Print Assumptions C18_skeleton.
+Theorem C18_paths :
+  forall (c : cfg) (g : gvalue), shape_plain c g = true -> tpaths (cast c g) = gpaths g.
+Proof. exact paths_preserved. Qed.
+Print Assumptions C18_paths.
+Theorem C18_leaf_paths :
+  forall (c : cfg) (g : gvalue), shape_plain c g = true -> leaf_paths (tpaths (cast c g)) = leaf_paths (gpaths g).
+Proof. exact leaf_paths_preserved. Qed.
+Print Assumptions C18_leaf_paths.
+
+(* what the enumerations enumerate: exactly the paths of the value that do not enter JSON text (resp. the paths of its
+   cast), each with the kind of node it leads to -- so the theorem above says: a path leads to a scalar leaf / an array / an
+   object of the value iff it leads to one of its cast *)
+Theorem C18_gpaths_spec :
+  forall (g : gvalue) (p : path) (k : nkind),
+    In (p, k) (gpaths g) <-> json_free p = true /\ exists x, gat g p = Some x /\ gkind x = k.
+Proof. exact gpaths_spec. Qed.
+Print Assumptions C18_gpaths_spec.
+Theorem C18_tpaths_spec :
+  forall (t : tval) (p : path) (k : nkind), In (p, k) (tpaths t) <-> exists x, tat t p = Some x /\ tkind_of x = k.
+Proof. exact tpaths_spec. Qed.
+Print Assumptions C18_tpaths_spec.
+Theorem C18_same_paths :
+  forall (c : cfg) (g : gvalue) (p : path) (k : nkind),
+    shape_plain c g = true -> json_free p = true ->
+    ((exists x, gat g p = Some x /\ gkind x = k) <-> (exists y, tat (cast c g) p = Some y /\ tkind_of y = k)).
+Proof. exact same_paths. Qed.
+Print Assumptions C18_same_paths.
+
+(* ---- 2. LEAF LOCALITY ---- *)
+(* a member that every alternative reads as the cast reads it on its own ([local_value]) is cast to the same thing wherever
+   it stands in an array ... *)
+Theorem C18_list_locality :
+  forall (c : cfg) (l1 : list gvalue) (v : gvalue) (l2 : list gvalue),
+    local_value c v -> tat (cast c (GList (l1 ++ v :: l2))) [Idx (length l1)] = Some (cast c v).
+Proof. exact list_locality. Qed.
+Print Assumptions C18_list_locality.
+(* ... every member is, in an array no alternative reads as a typed list ... *)
+Theorem C18_list_locality_untyped :
+  forall (c : cfg) (l1 : list gvalue) (v : gvalue) (l2 : list gvalue),
+    transparent c (GList (l1 ++ v :: l2)) = true ->
+    cast c (GList (l1 ++ v :: l2)) = TList (map (cast c) l1 ++ cast c v :: map (cast c) l2).
+Proof. exact list_locality_untyped. Qed.
+Print Assumptions C18_list_locality_untyped.
+(* ... and every member of an object that is not recognised; whether it is recognised depends on keys and recogniser only *)
+Theorem C18_object_locality :
+  forall (c : cfg) (d1 : list (str * gvalue)) (k : str) (v : gvalue) (d2 : list (str * gvalue)) (r : option recog),
+    choose c (GDict (d1 ++ (k, v) :: d2) r) = CNone ->
+    cast c (GDict (d1 ++ (k, v) :: d2) r) = TGeneric (cast_props c d1 ++ (k, cast c v) :: cast_props c d2).
+Proof. exact object_locality. Qed.
+Print Assumptions C18_object_locality.
+Theorem C18_object_recognition_keys_only :
+  forall (c : cfg) (d d' : list (str * gvalue)) (r : option recog),
+    map fst d = map fst d' -> choose c (GDict d r) = choose c (GDict d' r).
+Proof. exact choose_dict_keys_only. Qed.
+Print Assumptions C18_object_recognition_keys_only.
+(* which values are local: arrays, objects, null always; numbers and booleans under the guards of the specified algorithm;
+   text no alternative reads; any scalar the decidable check [localb] accepts *)
+Theorem C18_local_nonscalar : forall (c : cfg) (g : gvalue), is_scalar g = false -> local_value c g.
+Proof. exact local_nonscalar. Qed.
+Print Assumptions C18_local_nonscalar.
+Theorem C18_local_int : forall (c : cfg) (z : Z) (a : sann), c_guard_num c = true -> local_value c (GInt z a).
+Proof. exact local_int. Qed.
+Print Assumptions C18_local_int.
+Theorem C18_local_bool :
+  forall (c : cfg) (b : bool) (a : sann), c_guard_num c = true -> c_guard_bool c = true -> local_value c (GBool b a).
+Proof. exact local_bool. Qed.
+Print Assumptions C18_local_bool.
+Theorem C18_local_float : forall (c : cfg) (x : str) (a : sann), c_guard_num c = true -> local_value c (GFloat x a).
+Proof. exact local_float. Qed.
+Print Assumptions C18_local_float.
+Theorem C18_local_plain_text :
+  forall (c : cfg) (s : str) (j : option gvalue) (a : sann), no_reading s a -> local_value c (GStr s j a).
+Proof. exact local_plain_text. Qed.
+Print Assumptions C18_local_plain_text.
+Theorem C18_localb_sound : forall (c : cfg) (v : gvalue), localb c v = true -> local_value c v.
+Proof. exact localb_sound. Qed.
+Print Assumptions C18_localb_sound.
+(* REFUTED without the hypothesis, for the specified algorithm and confirmed annotations: date-only text next to a timestamp
+   becomes a timestamp (midnight), on its own a date.  pycfmodel does the same:
+   ["2020-01-01", "2020-01-01T10:00:00"] -> [datetime(2020,1,1,0,0), datetime(2020,1,1,10,0)],  "2020-01-01" -> date(2020,1,1) *)
+Theorem C18_list_locality_refuted :
+  exists c l1 v l2, all_confirmed (GList (l1 ++ v :: l2)) = true /\
+    tat (cast c (GList (l1 ++ v :: l2))) [Idx (length l1)] <> Some (cast c v).
+Proof. exact list_locality_refuted. Qed.
+Print Assumptions C18_list_locality_refuted.
+
+(* ---- 3. NUMBERS, BOOLEANS, NULL ---- *)
+(* every configuration (the code as found included), every annotation *)
+Theorem C18_null_stays : forall c : cfg, cast c GNull = TNull.
+Proof. exact null_stays. Qed.
+Print Assumptions C18_null_stays.
+Theorem C18_bool_stays : forall (c : cfg) (b : bool) (a : sann), cast c (GBool b a) = TBool b.
+Proof. exact bool_stays. Qed.
+Print Assumptions C18_bool_stays.
+Theorem C18_int_stays : forall (c : cfg) (z : Z) (a : sann), cast c (GInt z a) = TInt z.
+Proof. exact int_stays. Qed.
+Print Assumptions C18_int_stays.
+(* a float stays that float, or -- a whole number -- becomes the integer the integer parser reads; under the numbers guard *)
+Theorem C18_float_stays :
+  forall (c : cfg) (x : str) (a : sann),
+    c_guard_num c = true -> cast c (GFloat x a) = match a_int a with Some z => TInt z | None => TFloat x end.
+Proof. exact float_stays. Qed.
+Print Assumptions C18_float_stays.
+Theorem C18_number_stays_number :
+  forall (c : cfg) (g : gvalue),
+    c_guard_num c = true -> leaf_confirmed g = true -> is_json_number g = true -> number_kept g (cast c g) = true.
+Proof. exact number_stays_number. Qed.
+Print Assumptions C18_number_stays_number.
+(* at every path: through plain objects and ALL arrays (typed or not) under the guards ... *)
+Theorem C18_null_at_path :
+  forall (c : cfg) (g : gvalue) (p : path),
+    along (passable c) g p = true -> gat g p = Some GNull -> tat (cast c g) p = Some TNull.
+Proof. exact null_at_path. Qed.
+Print Assumptions C18_null_at_path.
+Theorem C18_int_at_path :
+  forall (c : cfg) (g : gvalue) (p : path) (z : Z) (a : sann),
+    c_guard_num c = true -> along (passable c) g p = true -> gat g p = Some (GInt z a) -> tat (cast c g) p = Some (TInt z).
+Proof. exact int_at_path. Qed.
+Print Assumptions C18_int_at_path.
+Theorem C18_bool_at_path :
+  forall (c : cfg) (g : gvalue) (p : path) (b : bool) (a : sann),
+    c_guard_num c = true -> c_guard_bool c = true ->
+    along (passable c) g p = true -> gat g p = Some (GBool b a) -> tat (cast c g) p = Some (TBool b).
+Proof. exact bool_at_path. Qed.
+Print Assumptions C18_bool_at_path.
+Theorem C18_float_at_path :
+  forall (c : cfg) (g : gvalue) (p : path) (x : str) (a : sann),
+    c_guard_num c = true -> along (passable c) g p = true -> gat g p = Some (GFloat x a) ->
+    tat (cast c g) p = Some (match a_int a with Some z => TInt z | None => TFloat x end).
+Proof. exact float_at_path. Qed.
+Print Assumptions C18_float_at_path.
+(* ... and for every configuration at every path that crosses no typed list *)
+Theorem C18_int_at_open_path :
+  forall (c : cfg) (g : gvalue) (p : path) (z : Z) (a : sann),
+    along (transparent c) g p = true -> gat g p = Some (GInt z a) -> tat (cast c g) p = Some (TInt z).
+Proof. exact int_at_open_path. Qed.
+Print Assumptions C18_int_at_open_path.
+Theorem C18_bool_at_open_path :
+  forall (c : cfg) (g : gvalue) (p : path) (b : bool) (a : sann),
+    along (transparent c) g p = true -> gat g p = Some (GBool b a) -> tat (cast c g) p = Some (TBool b).
+Proof. exact bool_at_open_path. Qed.
+Print Assumptions C18_bool_at_open_path.
+
+(* ---- 4. STRING CLASSIFICATION ---- *)
+(* plain text: the classifier is a total function of the text's own readings and decides what the text becomes *)
+Theorem C18_plain_text_classified :
+  forall (c : cfg) (s : str) (a : sann), cast c (GStr s None a) = fam_result s a (classify c s a).
+Proof. exact plain_text_classified. Qed.
+Print Assumptions C18_plain_text_classified.
+(* the families, each by its own defining condition, are exactly the classes of the classifier: exhaustive and exclusive *)
+Theorem C18_family_partition :
+  forall (c : cfg) (s : str) (a : sann) (f : fam), in_fam c s a f <-> classify c s a = f.
+Proof. exact in_fam_iff. Qed.
+Print Assumptions C18_family_partition.
+Theorem C18_family_exhaustive : forall (c : cfg) (s : str) (a : sann), exists f, in_fam c s a f.
+Proof. exact fam_exhaustive. Qed.
+Print Assumptions C18_family_exhaustive.
+Theorem C18_family_exclusive :
+  forall (c : cfg) (s : str) (a : sann) (f1 f2 : fam), in_fam c s a f1 -> in_fam c s a f2 -> f1 = f2.
+Proof. exact fam_exclusive. Qed.
+Print Assumptions C18_family_exclusive.
+Theorem C18_family_decides :
+  forall (c : cfg) (s : str) (a : sann) (f : fam), in_fam c s a f -> cast c (GStr s None a) = fam_result s a f.
+Proof. exact fam_decides. Qed.
+Print Assumptions C18_family_decides.
+(* a string in no converting family is returned unchanged; in a converting family it is no string any more *)
+Theorem C18_kept_family_unchanged :
+  forall (c : cfg) (s : str) (a : sann), fam_kept (classify c s a) = true -> cast c (GStr s None a) = TStr s.
+Proof. exact kept_family_unchanged. Qed.
+Print Assumptions C18_kept_family_unchanged.
+Theorem C18_converting_family_converts :
+  forall (c : cfg) (s : str) (a : sann), fam_kept (classify c s a) = false -> forall s', cast c (GStr s None a) <> TStr s'.
+Proof. exact converting_family_converts. Qed.
+Print Assumptions C18_converting_family_converts.
+Theorem C18_no_reading_kept :
+  forall (c : cfg) (s : str) (a : sann), no_reading s a -> fam_kept (classify c s a) = true.
+Proof. exact no_reading_kept. Qed.
+Print Assumptions C18_no_reading_kept.
+(* of the configuration only the numbers guard takes part *)
+Theorem C18_plain_text_cfg :
+  forall (c c' : cfg) (s : str) (a : sann),
+    c_guard_num c = c_guard_num c' -> cast c (GStr s None a) = cast c' (GStr s None a).
+Proof. exact plain_text_cfg. Qed.
+Print Assumptions C18_plain_text_cfg.
+(* JSON text: stays the text when the union rejects what it encodes, otherwise becomes the cast of what it encodes (text inside
+   JSON text is not decoded a second time); every string leaf falls in one of the three cases *)
+Theorem C18_json_text_is_decoded_value :
+  forall (c : cfg) (s : str) (j : gvalue) (a : sann),
+    choose c j <> CNone -> cast c (GStr s (Some j) a) = cast c (unjson j).
+Proof. exact json_text_is_decoded_value. Qed.
+Print Assumptions C18_json_text_is_decoded_value.
+Theorem C18_string_leaf_total :
+  forall (c : cfg) (s : str) (j : option gvalue) (a : sann),
+    (j = None /\ cast c (GStr s j a) = fam_result s a (classify c s a))
+    \/ (exists j', j = Some j' /\ choose c j' = CNone /\ cast c (GStr s j a) = TStr s)
+    \/ (exists j', j = Some j' /\ choose c j' <> CNone /\ cast c (GStr s j a) = cast c (unjson j')).
+Proof. exact string_leaf_total. Qed.
+Print Assumptions C18_string_leaf_total.
+
+(* the number half of C18_not_bool: plain text becomes an integer only when the integer parser reads it -- and the checker
+   then confirms the text denotes that integer; plain text never becomes a float *)
+Theorem C18_int_only_from_int_reading :
+  forall (c : cfg) (s : str) (a : sann) (z : Z),
+    cast c (GStr s None a) = TInt z -> bool_literal s = None /\ a_int a = Some z.
+Proof. exact int_only_from_int_reading. Qed.
+Print Assumptions C18_int_only_from_int_reading.
+Theorem C18_int_from_text_confirmed :
+  forall (c : cfg) (s : str) (a : sann) (z : Z),
+    leaf_confirmed (GStr s None a) = true -> cast c (GStr s None a) = TInt z -> denotes_int s z = true.
+Proof. exact int_from_text_confirmed. Qed.
+Print Assumptions C18_int_from_text_confirmed.
+Theorem C18_text_never_float : forall (c : cfg) (s : str) (a : sann) (x : str), cast c (GStr s None a) <> TFloat x.
+Proof. exact text_never_float. Qed.
+Print Assumptions C18_text_never_float.
+
+(* ---- 5. FIXED POINT / IDEMPOTENCE ---- *)
+(* a value in which the oracles see nothing to convert is cast to itself, and its dump is the JSON it came from *)
+Theorem C18_cast_inert : forall (c : cfg) (g : gvalue), inert c g = true -> cast c g = inj g.
+Proof. exact cast_inert. Qed.
+Print Assumptions C18_cast_inert.
+Theorem C18_dump_cast_inert : forall (c : cfg) (g : gvalue), inert c g = true -> tdump (cast c g) = strip g.
+Proof. exact dump_cast_inert. Qed.
+Print Assumptions C18_dump_cast_inert.
+(* casting the dump of a value with kept leaves only (t = cast c g in particular) gives the value back, whenever the oracles,
+   asked about the leaves of the dump, see nothing to convert: the instance for class Generic of the hypothesis
+   "a validator accepts its own output" of C15 (Typed/Leaves.v leaf_accepts_own_output, leaf LGeneric) *)
+Theorem C18_idempotent_on_kept :
+  forall (c : cfg) (t : tval) (g' : gvalue),
+    kept t = true -> strip g' = tdump t -> inert c g' = true -> cast c g' = t.
+Proof. exact idempotent_on_kept. Qed.
+Print Assumptions C18_idempotent_on_kept.
+(* REFUTED without [inert] WHEN a string may carry a JSON reading that is text again: JSON text of JSON text is then decoded once
+   per cast.  This refutation, replayed on pycfmodel as found, was finding F29 ("\"\\\"x\\\"\"" parsed to the text "\"x\"", whose
+   model_dump(), validated again, gave x: the C15 round trip lost a layer of quotes per validation); repaired in /repo commit 4e7f8be
+   (a JSON string literal is kept as written).  Since then the oracle that supplies the JSON readings (harness/generic_oracle.py
+   annotate) gives a string literal NO reading, so the witness below is outside what the correspondence can produce; the theorem
+   stays as the reason why the pre-pass must not decode text to text. *)
+Theorem C18_idempotence_refuted :
+  exists c g g', kept (cast c g) = true /\ all_confirmed g = true /\ all_confirmed g' = true /\
+    strip g' = tdump (cast c g) /\ cast c g' <> cast c g.
+Proof. exact idempotence_refuted. Qed.
+Print Assumptions C18_idempotence_refuted.
+
 (* ---- non-vacuity: the hypotheses are satisfiable on an input that exercises every kind of conversion ---- *)
 From Coq Require Import String.
 Local Open Scope string_scope.
@@ -138,3 +422,67 @@ Example C18_number_as_network_refuted :
   cast ORIG g_list_int_ip = TList [TNet KNet4 (s "0.0.0.1/32"); TNet KNet4 (s "10.0.0.1/32")]
   /\ cast_ok ORIG g_list_int_ip (cast ORIG g_list_int_ip) = false.
 Proof. vm_compute. split; reflexivity. Qed.
+
+(* ================= Typed/CastShape.v: non-vacuity ================= *)
+(* a nested value in which nothing is recognised: skeleton and paths preserved (16 nodes, 9 scalar leaves) *)
+Example C18_ex_shape :
+  shape_plain SPEC g_plain = true /\ tskel (cast SPEC g_plain) = gskel g_plain
+  /\ List.length (gpaths g_plain) = 16%nat /\ List.length (leaf_paths (gpaths g_plain)) = 9%nat
+  /\ shape_plain SPEC g_mixed = false.
+Proof. vm_compute. repeat split; reflexivity. Qed.
+(* $.Nested.Deep[0][1] is reached through plain objects and untyped arrays; $.Nums[1] through a typed array *)
+Example C18_ex_paths :
+  along (transparent SPEC) g_plain [Mem 4 (s "Nested"); Mem 2 (s "Deep"); Idx 0; Idx 1] = true
+  /\ gat g_plain [Mem 4 (s "Nested"); Mem 2 (s "Deep"); Idx 0; Idx 1] = Some g_true
+  /\ tat (cast SPEC g_plain) [Mem 4 (s "Nested"); Mem 2 (s "Deep"); Idx 0; Idx 1] = Some (TBool true)
+  /\ along (transparent SPEC) g_plain [Mem 3 (s "Nums"); Idx 1] = false
+  /\ along (passable SPEC) g_plain [Mem 3 (s "Nums"); Idx 1] = true
+  /\ tat (cast SPEC g_plain) [Mem 3 (s "Nums"); Idx 1] = Some (TInt 2)
+  /\ choose SPEC (GList [g_int_1; g_int_1]) = CList BInt /\ choose SPEC g_plain = CNone.
+Proof. vm_compute. repeat split; reflexivity. Qed.
+(* which witnesses are local: everything but text that is both a date and a timestamp; without the guards numbers are not *)
+Example C18_ex_local :
+  map (localb SPEC) [g_int_1; g_true; g_float_1_5; g_str_1; g_str_time; g_str_net; g_str_potato] = [true; true; true; true; true; true; true]
+  /\ map (localb SPEC) [g_str_date; g_str_midnight; g_date_only] = [false; false; false]
+  /\ map (localb ORIG) [g_int_1; g_true; g_str_1] = [false; false; false]
+  /\ no_reading (s "potato") no_ann.
+Proof. split; [vm_compute; reflexivity|]. split; [vm_compute; reflexivity|]. split; [vm_compute; reflexivity|]. vm_compute. repeat split; reflexivity. Qed.
+Example C18_ex_locality_witness :
+  cast SPEC g_date_only = TDate (s "2020-01-01")
+  /\ cast SPEC (GList [g_date_only; g_timestamp]) = TList [TDatetime (s "2020-01-01T00:00:00"); TDatetime (s "2020-01-01T10:00:00")]
+  /\ cast SPEC (GList [g_date_only; text "x"]) = TList [TDate (s "2020-01-01"); TStr (s "x")]
+  /\ cast_ok SPEC (GList [g_date_only; g_timestamp]) (cast SPEC (GList [g_date_only; g_timestamp])) = true.
+Proof. vm_compute. repeat split; reflexivity. Qed.
+(* numbers: confirmed annotations, the same number *)
+Example C18_ex_numbers :
+  leaf_confirmed g_float_whole = true /\ number_kept g_float_whole (cast SPEC g_float_whole) = true
+  /\ cast SPEC g_float_whole = TInt 1577836800 /\ cast ORIG g_int_1 = TInt 1 /\ cast ORIG g_true = TBool true.
+Proof. vm_compute. repeat split; reflexivity. Qed.
+(* one witness per family *)
+Example C18_ex_families :
+  classify SPEC (s "TRUE") no_ann = FamBool
+  /\ classify SPEC (s "1_000") (ann_of g_str_1_000) = FamInt
+  /\ classify SPEC (s "5.") (ann_of g_str_5dot) = FamNumText /\ classify ORIG (s "5.") (ann_of g_str_5dot) = FamDatetime
+  /\ classify SPEC (s "0000-01-01") ann_year0 = FamAborted
+  /\ classify SPEC (s "2019-12-04") (ann_of g_str_date) = FamDate
+  /\ classify SPEC (s "2011-11-04 00:05:23Z") (ann_of g_str_time) = FamDatetime
+  /\ classify SPEC (s "10.0.0.7/24") (ann_of g_str_net) = FamNet
+  /\ classify SPEC (s "potato") no_ann = FamKept /\ classify SPEC (s "yes") no_ann = FamKept.
+Proof. vm_compute. repeat split; reflexivity. Qed.
+Example C18_ex_int_from_text :
+  leaf_confirmed g_str_1_000 = true /\ cast SPEC g_str_1_000 = TInt 1000 /\ denotes_int (s "1_000") 1000 = true.
+Proof. vm_compute. repeat split; reflexivity. Qed.
+Example C18_ex_json_text :
+  choose SPEC g_int_1 <> CNone /\ cast SPEC g_str_1 = cast SPEC g_int_1
+  /\ choose SPEC (GDict [(s "a", g_int_1)] None) = CNone /\ cast SPEC g_str_json_obj = TStr (s "{""a"":1}").
+Proof. split; [vm_compute; discriminate|]. vm_compute. repeat split; reflexivity. Qed.
+(* a nested inert value is a fixed point and its dump is the JSON it came from; 1000 (from "1e3") is cast to itself *)
+Example C18_ex_inert :
+  inert SPEC g_inert = true /\ cast SPEC g_inert = inj g_inert /\ tdump (cast SPEC g_inert) = strip g_inert
+  /\ kept (cast SPEC g_inert) = true /\ inert ORIG g_inert = false
+  /\ cast SPEC g_str_1e3 = TInt 1000 /\ strip g_int_1000 = tdump (cast SPEC g_str_1e3) /\ inert SPEC g_int_1000 = true
+  /\ cast SPEC g_int_1000 = cast SPEC g_str_1e3.
+Proof. vm_compute. repeat split; reflexivity. Qed.
+Example C18_ex_idempotence_witness :
+  cast SPEC g_json_twice = TStr (s """x""") /\ cast SPEC g_str_json_str = TStr (s "x") /\ inert SPEC g_str_json_str = false.
+Proof. vm_compute. repeat split; reflexivity. Qed.
